@@ -370,6 +370,11 @@ pub struct Curve2Spec {
     /// de-duplication and closing interact
     #[serde(default)]
     pub seam_cluster: Vec<(f64, f64)>,
+    /// (edge, count, step in units of tol) runs of finely spaced samples creeping along an edge away from its first
+    /// vertex: every sample is within tol of the one before it, yet the run as a whole is many tolerances long, so
+    /// which samples survive depends on comparing with the last RETAINED sample, as documented
+    #[serde(default)]
+    pub creep: Vec<(u16, u8, f64)>,
 }
 
 pub struct Built2 {
@@ -444,6 +449,56 @@ impl Curve2Spec {
             }
             return Some((crate::oracle::to_p2(&input), crate::oracle::to_p2(&kept), true, true, mode));
         }
+        if !self.creep.is_empty() && pts.len() >= 2 {
+            // finely sampled stretches; expected vertices follow the documented rule (drop a sample within tol of the
+            // last retained one).  A run stays at least 4 tol short of the edge's far vertex, and a run with a sample at
+            // a knife-edge distance from the last retained one is left out altogether.
+            let mut runs: Vec<(usize, Vec<P2>, Vec<P2>)> = vec![];
+            let mut edges: Vec<usize> = vec![];
+            for (e, k, step) in &self.creep {
+                let i = crate::fw::idx(*e, pts.len() - 1);
+                if edges.contains(&i) {
+                    continue;
+                }
+                let (a, b) = (pts[i], pts[i + 1]);
+                let len = d(&a, &b);
+                let h = step.clamp(0.05, 0.98) * tol;
+                if !(len > (*k as f64 * h) + 4.0 * tol) || *k == 0 {
+                    continue;
+                }
+                let u = [(b[0] - a[0]) / len, (b[1] - a[1]) / len];
+                let mut all: Vec<P2> = vec![];
+                let mut kept: Vec<P2> = vec![];
+                let mut last = a;
+                let mut knife = false;
+                for j in 1..=*k {
+                    let q = [a[0] + u[0] * h * j as f64, a[1] + u[1] * h * j as f64];
+                    let dq = d(&last, &q);
+                    knife |= (dq - tol).abs() <= 1e-6 * tol;
+                    if dq > tol {
+                        kept.push(q);
+                        last = q;
+                    }
+                    all.push(q);
+                }
+                // the far vertex must survive too
+                if knife || d(&last, &b) <= 2.0 * tol {
+                    continue;
+                }
+                edges.push(i);
+                runs.push((i, all, kept));
+            }
+            runs.sort_by_key(|r| std::cmp::Reverse(r.0));
+            for (i, all, kept) in runs {
+                for (j, q) in all.into_iter().enumerate() {
+                    input.insert(i + 1 + j, q);
+                }
+                for (j, q) in kept.into_iter().enumerate() {
+                    expected.insert(i + 1 + j, q);
+                }
+            }
+            return Some((crate::oracle::to_p2(&input), crate::oracle::to_p2(&expected), force, closed, mode));
+        }
         // inject duplicates into the input only (processed from the back so indices stay valid)
         let mut ins: Vec<(usize, bool)> = self.dups.iter().map(|(i, e)| (crate::fw::idx(*i, input.len()), *e)).collect();
         ins.sort();
@@ -470,10 +525,20 @@ pub fn close_mode() -> BoxedStrategy<CloseMode> {
 
 /// curve spec with scale log-uniform in 10^[lo,hi]
 pub fn curve2_spec(nmin: usize, nmax: usize, lo: f64, hi: f64, with_dups: bool) -> BoxedStrategy<Curve2Spec> {
-    (unif(lo, hi), prop::sample::select(vec![1e-9, 1e-6, 1e-4]), close_mode(), prop::collection::vec((any::<u16>(), any::<bool>()), 0..4), prop_oneof![3 => Just(vec![]), 1 => prop::collection::vec((unif(-1.8, 1.8), unif(-1.8, 1.8)), 1..5)])
-        .prop_flat_map(move |(e, trel, mode, dups, seam)| {
+    (unif(lo, hi), prop::sample::select(vec![1e-9, 1e-6, 1e-4]), close_mode(), prop::collection::vec((any::<u16>(), any::<bool>()), 0..4), prop_oneof![3 => Just(vec![]), 1 => prop::collection::vec((unif(-1.8, 1.8), unif(-1.8, 1.8)), 1..5)], prop_oneof![5 => Just(vec![]), 1 => prop::collection::vec((any::<u16>(), 2u8..40, unif(0.2, 0.95)), 1..3)])
+        .prop_flat_map(move |(e, trel, mode, dups, seam, creep)| {
             let scale = 10f64.powf(e);
-            polyline2(nmin, nmax, scale).prop_map(move |(_, pts)| Curve2Spec { pts, tol: trel * scale, mode, dups: if with_dups { dups.clone() } else { vec![] }, seam_cluster: if with_dups { seam.clone() } else { vec![] } })
+            polyline2(nmin, nmax, scale).prop_map(move |(_, pts)| Curve2Spec { pts, tol: trel * scale, mode, dups: if with_dups { dups.clone() } else { vec![] }, seam_cluster: if with_dups { seam.clone() } else { vec![] }, creep: if with_dups { creep.clone() } else { vec![] } })
+        })
+        .boxed()
+}
+
+/// as `curve2_spec(.., false)`, and one case in five carries finely sampled runs (see `Curve2Spec::creep`)
+pub fn curve2_spec_fine(nmin: usize, nmax: usize, lo: f64, hi: f64) -> BoxedStrategy<Curve2Spec> {
+    (curve2_spec(nmin, nmax, lo, hi, false), prop_oneof![4 => Just(vec![]), 1 => prop::collection::vec((any::<u16>(), 2u8..40, unif(0.2, 0.95)), 1..3)])
+        .prop_map(|(mut spec, creep)| {
+            spec.creep = creep;
+            spec
         })
         .boxed()
 }
